@@ -310,6 +310,46 @@ def use_display_loop(a, b):
     return out
 
 
+class _Opt:
+    def __init__(self, has):
+        if has:
+            self.ping = lambda v: _log(("ping", v))
+
+
+def use_getattr_method(has, n):
+    o = _Opt(has)
+    f = getattr(o, "ping", None)
+    out = []
+    for i in range(n):
+        if f is not None:
+            out.append(f(i))
+    if f:
+        out.append("yes")
+    return out
+
+
+def use_range_len(xs):
+    out = []
+    for i in range(len(xs)):
+        out.append((i, _log(xs[i]) + xs[i]))
+    return out
+
+
+def use_range_len_store(xs):
+    xs = list(xs)
+    for i in range(len(xs)):
+        xs[i] = xs[i] + 1
+        _log(xs[i])
+    return xs
+
+
+def use_enum_sub(xs):
+    out = []
+    for i, x in enumerate(xs):
+        out.append(xs[i] * 2 + x)
+    return out
+
+
 def use_display_loop_rebind(a, b):
     out = []
     for v in [a, b]:
@@ -411,7 +451,7 @@ def main():
             cases.append((f, (x,)))
     for xs in lists:
         for f in ("use_first_even", "use_aug", "use_enum", "use_list_yield_from", "use_filter_loop", "use_filter_loop_tmp",
-                  "use_proj_loop", "use_genexp_loop"):
+                  "use_proj_loop", "use_genexp_loop", "use_range_len", "use_range_len_store", "use_enum_sub"):
             cases.append((f, (xs,)))
         for f in ("use_two_yields",):
             cases.append((f, (xs,)))
@@ -422,6 +462,9 @@ def main():
             cases.append(("use_gen", (xs, k)))
             cases.append(("use_gen_yield_from", (xs, k)))
     cases.append(("use_const", ()))
+    for has in (True, False):
+        for n in (0, 2):
+            cases.append(("use_getattr_method", (has, n)))
     cases.append(("use_comp_dispatch", ([abs, str, lambda v: v + 1], 3)))
     bad = 0
     for f, args in cases:
